@@ -82,6 +82,7 @@ PROPS = {
         "engines": [
             {"name": "c05-exhaustive"},
             {"name": "c05-random"},
+            {"name": "c05-router"},
             {"name": "c05-live"},
             miri("C05", "c05-random"),
         ],
